@@ -652,10 +652,16 @@ pub fn run(_params: &Params) {
   // ---- a very long, sparse list (more than 2^24 entries, i.e. more than 2 MiB uncompressed): high indices survive ----
   if ctx::choose(100) == 0 {
     ctx::stat("probe.very_long_list");
-    let entries = 16_777_216 + 8 * (1 + ctx::choose(100_000));
+    // (one in twenty of these is beyond 2^28 entries, 32 MiB uncompressed)
+    let entries = if ctx::chance(1, 20) {
+      ctx::stat("probe.list_beyond_2_28");
+      268_435_456 + 8 * (1 + ctx::choose(1000))
+    } else {
+      16_777_216 + 8 * (1 + ctx::choose(100_000))
+    };
     if let Ok(mut list) = StatusList2021::new(entries) {
       let len = list.len();
-      let marks = [0usize, 16_777_215, 16_777_216, len - 1, 16_777_216 + ctx::choose(len - 16_777_216)];
+      let marks = [0usize, 16_777_215, 16_777_216, len - 1, 16_777_216 + ctx::choose(len - 16_777_216), len - 2 - ctx::choose(1000)];
       for i in marks {
         let _ = list.set(i, true);
       }
